@@ -133,4 +133,26 @@ pub const TRICKY_BYTES: &[&[u8]] = &[
     b"\xff",
     b"\x1b[31mred\x1b[0m",
     b"\x7f\x08\x07",
+    // what an input-format detector would look for: compressed data, envelopes, encodings, interpreter lines
+    b"\x1f\x8b\x08\x00\x00\x00\x00\x00\x00\x03\xcbH\xcd\xc9\xc9\x07\x00\x86\xa6\x106\x05\x00\x00\x00",
+    b"PK\x03\x04",
+    b"aGVsbG8=",
+    b"aGVsbG8",
+    b"SGVsbG8gV29ybGQh\n",
+    b"data:text/plain;base64,aGVsbG8=",
+    b"{\"jsonrpc\":\"2.0\",\"method\":\"personal_sign\",\"params\":[\"0x68656c6c6f\",\"0x90f8bf6a479f320ead074411a4b0e7944ea8c9c1\"],\"id\":1}",
+    b"{\"message\":\"hello\"}",
+    b"#!/bin/sh\necho hi\n",
+    b"---\ntitle: x\n---\nbody\n",
+    b"f86c098504a817c800825208943535353535353535353535353535353535353535880de0b6b3a76400008025a0",
+    b"0xf86c098504a817c800825208943535353535353535353535353535353535353535880de0b6b3a76400008025a0",
+    b"\x19\x00abc",
+    b"\x19\x01abc",
+    b"\x19\x45thereum",
+    b"hello\x1a",
+    b"68656c6c6f",
+    b"68 65 6c 6c 6f",
+    b"=?utf-8?b?aGVsbG8=?=",
+    b"hello\r",
+    b"\rhello",
 ];
